@@ -21,8 +21,8 @@ func init() {
 	fw.Register(&fw.Check{
 		ID:    "C06",
 		Level: "exploration",
-		Rule: "case = rules-valid stream (directed probes first, then generated; no custom types, no remote references, no cyclic references; generated streams use backward references only, " +
-			"forward references are covered by directed probes) encoded as a CBE or CTE document that the decoder+rules accept; " +
+		Rule: "case = rules-valid stream (directed probes first, then generated; no custom types, no remote references, no cyclic references; generated streams carry backward and forward references, " +
+			"a quarter of them marker-dense) encoded as a CBE or CTE document that the decoder+rules accept; " +
 			"ce.UnmarshalFrom*Document(doc, nil) must return no error; the result is marshaled again with the same codec, decoded, and its canonical view must equal the original's after " +
 			"{records -> maps with the record type's keys, references substituted by their targets, markers/comments/padding dropped, maps unordered, numbers by exact value, NaN elements by kind, " +
 			"float16 array elements by exact value (they come back as a float32 array: Go has no 16-bit float type)}. " +
@@ -80,7 +80,18 @@ var c06Probes = []string{
 	`[@"https://example.com/a?b=c#d" @"a:b/c" @":x" @"100%" @"x\[1f]y" @"mailto:me@example.com"]`,
 	`@"https://example.com/ß"`,
 	`[1 @"  x  ~;"]`,
+	// a marked scalar followed by further values in the same container, referenced afterwards (the marked value, not a later sibling, must come back)
+	`{"a"=&m:1 "b"=2 "c"=$m}`,
+	`[{"a"=&m:"marked" "b"="other"} $m]`,
+	"@rec<\"x\" \"y\">\n[@rec{&m:10 20} $m]",
+	`[&m:1 2 3 4 5 6 $m]`,
+	`{"a"=&a:"x" "b"=&b:"y" "c"=&c:2.5 "d"=$a "e"=$b "f"=$c}`,
+	`(&m:1 2 3 $m)`,
+	`[[&a:1 2] [&b:3 4] $a $b]`,
+	`{"a"=&m:@u8[1 2 3] "b"=@u8[4 5 6] "c"=$m}`,
 	// forward references
+	`[$a 1 2 3 4 5 6 7 8 9 &a:"late"]`,
+	`{"refs"=[1 $a 2 3 4 5] "val"=&a:"marked"}`,
 	`[$a &a:1]`,
 	`{"x"=$a "y"=&a:[1 2]}`,
 	`[(1 $a) &a:5]`,
